@@ -112,8 +112,8 @@ func workerMain(scPath, outPath, dir string) {
 		var sb strings.Builder
 		for _, e := range st.Events {
 			sb.WriteString(`{"index":{"_index":"` + sc.Index + `"}}` + "\n")
-			sb.WriteString(fmt.Sprintf(`{"timestamp":%d,"id":%d,"v":%s,"s":%q,"g":%d}`+"\n",
-				e.TS, e.ID, strconv.FormatFloat(e.V, 'f', -1, 64), e.S, e.G))
+			sb.WriteString(fmt.Sprintf(`{"timestamp":%d,"id":%d,"v":%s,"s":%q,"g":%d,"n":%d}`+"\n",
+				e.TS, e.ID, strconv.FormatFloat(e.V, 'f', -1, 64), e.S, e.G, e.N))
 		}
 		n, resp, err := eswriter.HandleBulkBody([]byte(sb.String()), nil, 0, 0, false)
 		if err != nil || n != len(st.Events) || resp["errors"] != false {
